@@ -64,6 +64,10 @@ func (o *swrOrigin) RoundTrip(req *http.Request) (*http.Response, error) {
 		// every third experiment: a window "for ever" — more seconds than a duration holds; it is a window all the same
 		if h := (o.exp.Latency/1000000 + o.exp.Setting/1000000 + o.exp.Deadline/1000000 + int64(o.exp.Validator) + int64(len(o.exp.Outcome))); h%3 == 0 {
 			cc = "max-age=1, stale-while-revalidate=" + []string{"9223372037", "99999999999", "18446744073709551617"}[((h/3)%3+3)%3]
+		} else if (h%3+3)%3 == 1 {
+			// ... and every third: a window that closes three seconds after the stale answer (the request comes one second into
+			// it): the background request is bounded by the configured timeout, not by what is left of the window
+			cc = "max-age=1, stale-while-revalidate=4"
 		}
 		if o.exp.Validator&4 != 0 {
 			cc += `, no-cache="ETag, Last-Modified"` // qualified: the named fields are not replayed, the validators still validate
